@@ -183,6 +183,10 @@ pub struct Profile {
     pub unicode: bool,
     pub max_objs: usize,
     pub max_len: usize,
+    /// number of distinct map keys used (1..=3)
+    pub nkeys: usize,
+    /// concentrate on register conflicts: counters, increments, overwrites, deletes
+    pub counter_heavy: bool,
 }
 
 impl Profile {
@@ -198,6 +202,8 @@ impl Profile {
             unicode: false,
             max_objs: 5,
             max_len: 8,
+            nkeys: 3,
+            counter_heavy: false,
         }
     }
     pub fn graph() -> Self {
@@ -265,7 +271,15 @@ pub fn gen(rng: &mut Rng, view: &J, prof: &Profile) -> J {
     let can_make = prof.nested && nobjs < prof.max_objs;
     match ty {
         "map" | "table" => {
-            let key = KEYS[rng.below(KEYS.len())];
+            let key = KEYS[rng.below(prof.nkeys.clamp(1, 3))];
+            if prof.counter_heavy {
+                return match rng.below(20) {
+                    0..=4 => json!({"fn":"put","obj":id,"key":key,"val":rand_scalar(rng, prof)}),
+                    5..=9 => json!({"fn":"put","obj":id,"key":key,"val":enc::scalar(&ScalarValue::counter(rng.below(4) as i64))}),
+                    10..=15 => json!({"fn":"increment","obj":id,"key":key,"by":1 + rng.below(3) as i64}),
+                    _ => json!({"fn":"delete","obj":id,"key":key}),
+                };
+            }
             let isroot = id[0].as_i64() == Some(0);
             let mk = (isroot && nobjs < prof.max_objs && (prof.lists || prof.texts || prof.nested))
                 || can_make;
@@ -281,6 +295,17 @@ pub fn gen(rng: &mut Rng, view: &J, prof: &Profile) -> J {
         "list" => {
             let len = o["len"].as_u64().unwrap_or(0) as usize;
             let full = len >= prof.max_len;
+            if prof.counter_heavy && len > 0 {
+                let idx = rng.below(len);
+                return match rng.below(20) {
+                    0..=3 => json!({"fn":"put","obj":id,"idx":idx,"val":rand_scalar(rng, prof)}),
+                    4..=8 => json!({"fn":"put","obj":id,"idx":idx,"val":enc::scalar(&ScalarValue::counter(rng.below(4) as i64))}),
+                    9..=14 => json!({"fn":"increment","obj":id,"idx":idx,"by":1 + rng.below(3) as i64}),
+                    15..=16 if len > 1 => json!({"fn":"delete","obj":id,"idx":idx}),
+                    _ if !full => json!({"fn":"insert","obj":id,"idx":rng.below(len + 1),"val":enc::scalar(&ScalarValue::counter(rng.below(3) as i64))}),
+                    _ => json!({"fn":"put","obj":id,"idx":idx,"val":rand_scalar(rng, prof)}),
+                };
+            }
             let c = rng.below(10);
             if len == 0 || (c <= 3 && !full) {
                 let idx = rng.below(len + 1);
